@@ -66,7 +66,7 @@ Proof. exact check_phase_raises_iff. Qed.
 Print Assumptions C13_check_phase_raises_iff.
 
 Theorem C13_cell_unphased_meaning :
-  forall x, cell_unphased false x = true <-> ca x <> cb x /\ cp x = 0.
+  forall x, cell_unphased false x = true <-> ca x <> cb x /\ ca x < 254 /\ cb x < 254 /\ cp x = 0.
 Proof. exact cell_unphased_spec. Qed.
 Print Assumptions C13_cell_unphased_meaning.
 
@@ -82,6 +82,12 @@ Theorem C13_check_phase_strips :
   check_phase false t = QOk (strip_phase t).
 Proof. exact check_phase_strips. Qed.
 Print Assumptions C13_check_phase_strips.
+
+Theorem C13_check_phase_missing_allele_passes :
+  let t := mkg [0; 1] [gv 0 1 10] [[gc 5 255 0]; [gc 255 1 0]] 3 None in
+  check_phase false t = QOk (strip_phase t).
+Proof. exact check_phase_missing_allele_passes. Qed.
+Print Assumptions C13_check_phase_missing_allele_passes.
 
 (* the pinned tree let an unphased 2/1 through *)
 Theorem C13_legacy_phase_12_refuted :
